@@ -51,8 +51,9 @@ def rp(b, t, _depth=0):
                 if len(ds) != 1 or mir._is_loop_item(ds[0]):
                     continue
                 d0 = strip_refs(ds[0])
-                while d0[0] in ("deref", "ref"):
-                    d0 = strip_refs(d0[1])
+                while d0[0] in ("deref", "ref") or (d0[0] == "call" and d0[2] and re.search(r"::(deref|deref_mut|as_slice|as_mut_slice|as_ref|as_mut|borrow|borrow_mut)$", d0[1])):
+                    # `&Vec<T>` handed to a `&[T]` parameter goes through Deref::deref: the same list
+                    d0 = strip_refs(d0[2][0] if d0[0] == "call" else d0[1])
                 c = mir.has_call(d0, r"Iterator::collect$")
                 if c is not None and c[2]:
                     inner = c[2][0]
